@@ -8,7 +8,9 @@ EXPLANATION = ('Whole-server level, both servers, three transport modes (polling
                'disconnect(), heartbeat deadline passed then send / monitor sweep, WebSocket drop, poll timeout, protocol error), '
                'handler exceptions of several types (incl. TypeError and a legacy one-argument disconnect handler) and connect outcomes; '
                'a regular-language monitor reads the application handler log; exception containment is checked differentially '
-               'against the same history without the exception.')
+               'against the same history without the exception. Added later: two end causes injected in the same instant with selector-chosen '
+               'scheduling decisions (racing_ends), a slow - blocking / awaiting - disconnect handler with a follow-up stimulus arriving '
+               'while it still runs (slow_disconnect_handler), and the request task being cancelled by the web server in the middle of it.')
 STUBS = SIM_STUBS
 OUTSIDE = SIM_OUTSIDE + ['histories longer than 3 stimuli after the open', 'more than 2 sessions', 'races of more than two end causes; more than 3 '
                          'scheduling decisions chosen by selectors (racing_ends)']
